@@ -25,11 +25,11 @@ def gen_text(rng):
             t = rng.choice(NEAR)
             parts.append(t.encode("latin-1") if any(ord(c) >= 0x80 and ord(c) <= 0xff for c in t) and not t.isprintable() else t.encode("utf-8", "surrogateescape"))
         else:
-            parts.append(bytes(rng.choice(range(1, 256)) for _ in range(rng.choice([1, 1, 2, 5]))))
+            parts.append(bytes(rng.choice(range(0, 256)) for _ in range(rng.choice([1, 1, 2, 5]))))
         parts.append(rng.choice(SEPS).encode())
     if rng.random() < 0.5 and parts:
         parts.pop()   # no trailing separator
-    b = b"".join(parts).replace(b"\x00", b" ")
+    b = b"".join(parts)          # zero bytes included: a character like any other, which no token starts with
     return b[:3000] or b" "
 
 
@@ -63,7 +63,7 @@ def run(ctx):
         if os.path.exists(MODEL):
             corpus, items = structured_texts()
             texts = corpus + [a + b2 for a in items for b2 in items[:40]] + [gen_text(ctx.rng) for _ in range(4000)]
-            texts = [t.replace(b"\x00", b" ") or b" " for t in texts]
+            texts = [t or b" " for t in texts]
             lines = [hx(t) for t in texts]
             try:
                 impl = ctx.run_impl("scan", lines)
@@ -123,7 +123,7 @@ def run(ctx):
     nrand = 4000 if quick else 60000
     for _ in range(nrand):
         texts.append(gen_text(ctx.rng))
-    texts = [t.replace(b"\x00", b" ") or b" " for t in texts]
+    texts = [t or b" " for t in texts]
     lines = [hx(t) for t in texts]
     impl = ctx.run_impl("scan", lines)
     model = ctx.run_model("scan", lines)
@@ -165,7 +165,7 @@ def run(ctx):
                                       "reference automaton Emerge.Ref.Lexer transcribed by hand from docs/5-definitions.md and docs/6-design.md"],
     }
     return ctx.finish("proof", cov, [
-        "NUL bytes are excluded (the reader's end-of-input sentinel)",
+        "zero bytes are part of the texts since the repair 027b8ad (a character no token starts with: a lexical error at its position)",
         "the model's position of an invalid UTF-8 byte and the error texts are compared verbatim with the implementation's",
     ])
 
